@@ -19,6 +19,7 @@ configuration the property names: use_all_past=False, delay1 = 1).
 from __future__ import annotations
 
 import ast
+from engine.util import clone_ast
 from typing import Dict, List, Optional, Tuple
 
 from engine.src import FunctionInfo, own_nodes, own_nodes_incl_lambda, src_of, AnalysisError
@@ -270,7 +271,7 @@ def check_c(ck, repo):
     den = [s for s in asg.get("dy1", []) if isinstance(s.value, ast.Call) and src_of(s.value.func) == "numpy.sum"]
     if len(num) == 2 and len(den) == 2:
         for a, b in zip(sorted(num, key=lambda s: s.lineno), sorted(den, key=lambda s: s.lineno)):
-            na = Sub().visit(copy.deepcopy(a.value))
+            na = Sub().visit(clone_ast(a.value))
             same = norm.dump(_abs_sym(na), rename=False) == norm.dump(_abs_sym(b.value), rename=False)
             ck.verdict(same, "C20.c", fi, a, "with the previous value as forecast the numerator is the denominator (score 1)", "replacing the forecast by the previous value does not turn the numerator into the denominator: the naive forecast does not score 1")
     # masks: NaN forecasts masked in expected; forecast masked where it or its predecessor is NaN
@@ -283,7 +284,7 @@ def _abs_sym(e):
     """|a - b| is symmetric: order the operands of a subtraction inside numpy.abs"""
     import copy
 
-    e = copy.deepcopy(e)
+    e = clone_ast(e)
     for n in ast.walk(e):
         if isinstance(n, ast.Call) and src_of(n.func) == "numpy.abs" and n.args and isinstance(n.args[0], ast.BinOp) and isinstance(n.args[0].op, ast.Sub):
             b = n.args[0]
